@@ -3,6 +3,7 @@ import AlgoVerif.Proofs.C08LeftRecMain
 import AlgoVerif.Proofs.C08LeftFactorMain
 import AlgoVerif.Proofs.C08LeftRecTotal
 import AlgoVerif.Proofs.C08LeftFactorTotal
+import AlgoVerif.Proofs.C08Productive
 /-!
 # C08 — CFG transformations preserve the generated language (statements; proofs in `Proofs/C08*.lean`)
 
@@ -43,9 +44,12 @@ everything a pass adds is justified.
   fresh names preserves the language, lifted through `lfHead`, `lfPass` and the repeat-until-stable loop) —
   both inclusions, for every valid grammar.
 
-What is not proved: totality of `EliminateLeftRecursion` and `LeftFactor` (their two theorems are conditional
-on the Model returning `.ok`; `LeftFactor` can end in the documented fresh-name panic, known finding
-`C08-fresh-names-exhausted`); totality of the others is `C08_*_total` below.
+Totality is `C08_*_total` below.  Two documented panics of `AddNewNonTerminal` remain reachable on valid input
+and are excluded by computable hypotheses: `LeftFactor` needing a fifth primed name for one base name
+(`lfNamesSuffice`; known finding `C08-fresh-names-exhausted`) and BIN / `ChomskyNormalForm` needing more than
+99 numeric names for one head, e.g. a body of 102 symbols (`binNamesSuffice`; known findings
+`C08-bin-names-cnfbin`, `C08-bin-names-cnf`).  The hypothesis `∃ w, Language g w` (`L(G) ≠ ∅`) of the pipelines
+through unit-elimination is decidable: `C08_nonEmpty_iff` ties it to the Boolean `nonEmptyB g`.
 -/
 open AlgoVerif AlgoVerif.Gram AlgoVerif.C08 AlgoVerif.C08.Spec
 
@@ -226,15 +230,24 @@ theorem C08_cnf_total (g : G) (hv : Valid g) (hh : Hygienic g) (hl : ∃ w, Lang
   obtain ⟨g', h⟩ := cnf_total hv hh hl (binNamesSuffice_spec hbin)
   exact ⟨g', h, C08_cnf g g' hv h⟩
 
-/-
-Full statements not proved (correspondence + bounded-language oracle only):
+/-- `L(G) ≠ ∅` is decidable: `nonEmptyB g` (the start symbol is in the least fixpoint of "has a body of
+terminals and productive non-terminals") is true exactly when some sentence is derivable. -/
+theorem C08_nonEmpty_iff (g : G) : nonEmptyB g = true ↔ ∃ w, Language g w :=
+  nonEmptyB_iff g
 
-    theorem C08_leftrec    (g g' : G) (hv : Valid g) (hh : Hygienic g) (h : elimLeftRec g = .ok g') : SameLanguage g g'
-      -- substitution `Aᵢ → Aⱼ γ ↦ Aᵢ → δ γ` (unfold an occurrence) and the Arden step
-      -- `A → A α | β  ↦  A → β A′, A′ → α A′ | ε` for a fresh `A′`
-    theorem C08_leftfactor (g g' : G) (hv : Valid g) (hh : Hygienic g) (h : leftFactor g = .ok g') : SameLanguage g g'
-      -- fold a fresh non-terminal `A′ → β₁ | … | βₙ` for the common first symbol
--/
+example : nonEmptyB
+      { terms := ["a"]
+        nonterms := ["S", "A"]
+        prods := [{ head := "S", body := [.nonterm "S", .term "a"] }, { head := "S", body := [.nonterm "A"] },
+                  { head := "A", body := [.term "a", .nonterm "A"] }, { head := "A", body := [] }]
+        start := "S" } = true ∧
+    nonEmptyB
+      { terms := ["a"]
+        nonterms := ["S", "A"]
+        prods := [{ head := "S", body := [.nonterm "S", .term "a"] }, { head := "S", body := [.nonterm "A"] },
+                  { head := "A", body := [.term "a", .nonterm "A"] }]
+        start := "S" } = false := by
+  decide
 
 /-! ## EliminateLeftRecursion and LeftFactor (proofs in `Proofs/C08LeftRec*.lean`, `Proofs/C08LeftFactor*.lean`) -/
 
@@ -243,11 +256,31 @@ Model returns. -/
 theorem C08_leftrecursion (g g' : G) (hv : Valid g) (h : elimLeftRec g = .ok g') : SameLanguage g g' :=
   AlgoVerif.C08.C08_leftrec g g' hv h
 
+/-- non-vacuity: indirect left recursion `S → A a | b`, `A → S c | d` (the D14 grammar) -/
+example : (elimLeftRec
+      { terms := ["a", "b", "c", "d"]
+        nonterms := ["S", "A"]
+        prods := [{ head := "S", body := [.nonterm "A", .term "a"] }, { head := "S", body := [.term "b"] },
+                  { head := "A", body := [.nonterm "S", .term "c"] }, { head := "A", body := [.term "d"] }]
+        start := "S" }).map showGrammar
+    = .ok "start=S T={a,b,c,d} N={A,A′,S} P={A′→a c A′; A′→ε; A→b c A′; A→d A′; S→A a; S→b}" := by
+  decide
+
 /-- `LeftFactor` preserves the language (both inclusions), for every valid grammar on which the Model
 returns (i.e. unless the documented fresh-name panic occurs). -/
 theorem C08_leftfactoring (g g' : G) (hv : Valid g) (h : leftFactor g = .ok g') :
     SameLanguage g g' :=
   AlgoVerif.C08.C08_leftfactor_of_wellFormed hv.wellFormed h
+
+/-- non-vacuity: two rounds of factoring, `S → a S′ | c`, `S′ → b S″ | d`, `S″ → b | c` -/
+example : (leftFactor
+      { terms := ["a", "b", "c", "d"]
+        nonterms := ["S"]
+        prods := [{ head := "S", body := [.term "a", .term "b", .term "b"] }, { head := "S", body := [.term "a", .term "b", .term "c"] },
+                  { head := "S", body := [.term "a", .term "d"] }, { head := "S", body := [.term "c"] }]
+        start := "S" }).map showGrammar
+    = .ok "start=S T={a,b,c,d} N={S,S′,S″} P={S′→b S″; S′→d; S″→b; S″→c; S→a S′; S→c}" := by
+  decide
 
 /-- Totality of `EliminateLeftRecursion`: for every valid hygienic grammar with a non-empty language the Model
 returns (no panic: a primed name is always free; no divergence), the result has the same language and no left
